@@ -14,7 +14,7 @@ Inductive gstate := SDemandActive | SSynchronize | SControlCooperate | SControlG
 Record session := mkSession {
   st : gstate;
   user_id : N;        (* assigned by the server in attach-user-confirm *)
-  channel_id : N;     (* the global (I/O) channel: 1003 *)
+  channel_id : N;     (* the global (I/O) channel: the id the server network data announced (1003 in practice) *)
   width : N; height : N; layout : N;
   share_id : option N;
   cname : bytes       (* client name, UTF-8 bytes *)
@@ -199,9 +199,13 @@ Definition write_confirm_active (s : session) : outcome bytes :=
   write_pdu s PDUTYPE_CONFIRMACTIVE
     (ts_confirm_active_pdu (match share_id s with Some x => x | None => 0 end) (cname s) caps cl))).
 
+(* the MCS channel id of the server (MS-RDPBCGR: 0x03EA), target of the client's synchronize PDU
+   (repaired code: it used to carry the I/O channel id) *)
+Definition SERVER_CHANNEL : N := 1002.
+
 Definition write_client_finalize (s : session) : outcome (list bytes) :=
   sequence [
-    write_data_pdu s PDUTYPE2_SYNCHRONIZE (ts_synchronize_pdu (channel_id s));
+    write_data_pdu s PDUTYPE2_SYNCHRONIZE (ts_synchronize_pdu SERVER_CHANNEL);
     write_data_pdu s PDUTYPE2_CONTROL (ts_control_pdu CTRLACTION_COOPERATE);
     write_data_pdu s PDUTYPE2_CONTROL (ts_control_pdu CTRLACTION_REQUEST_CONTROL);
     write_data_pdu s PDUTYPE2_FONTLIST ts_font_list_pdu ].
@@ -424,8 +428,9 @@ Definition client_try_write (s : session) (e : input_ev) : step_result :=
 
 End WithProfile.
 
-Definition init_session (uid w h lay : N) (name : bytes) : session :=
-  mkSession SDemandActive uid 1003 w h lay None name.
+Definition init_session_io (uid io w h lay : N) (name : bytes) : session :=
+  mkSession SDemandActive uid io w h lay None name.
+Definition init_session (uid w h lay : N) (name : bytes) : session := init_session_io uid 1003 w h lay name.
 
 (* a scripted run: what the harness replays against RdpClient *)
 Inductive op :=
